@@ -42,6 +42,8 @@ def main():
             v = [l for l in r.stdout.splitlines() if l.startswith("VIOLATION")]
             res[pid] = {"exit": r.returncode, "violations": len(v), "first": v[:1]}
         sh(f"git -C {REPO} reset -q --hard HEAD")
+        for pid in EXTRA.get(c, [f["property"]]):
+            sh(f"git -C {VERIF} checkout -- evidence/{pid}.json")
         results[c] = {"applied": True, "what": f["what"][:80], "checks": res}
         print(c, f["property"], {k: (v["exit"], v["violations"]) for k, v in res.items()}, flush=True)
     json.dump(results, open(os.path.join(VERIF, ".work", "selfmut.json"), "w"), indent=1)
